@@ -240,6 +240,9 @@ def h_NICK (c : Client) (l : Line) : HR :=
       | none => { c := c, panicked := true }
     else { c := c }
 
+/-- `handleCapNak`: a refused request changes nothing - the negotiation is closed, what is held stays as it was -/
+def handleCapNak (c : Client) (_ : List Bytes) : HR := { c := c, out := emit c (.cap CAP_END []) }
+
 def h_CAP (c : Client) (l : Line) : HR :=
   match arg l 1 with
   | none => { c := c, panicked := true }
@@ -247,7 +250,7 @@ def h_CAP (c : Client) (l : Line) : HR :=
     let caps := fields l.text
     if sub == CAP_LS then negotiate c caps
     else if sub == CAP_ACK then handleCapAck c caps
-    else if sub == CAP_NAK then { c := c, out := emit c (.cap CAP_END []) }
+    else if sub == CAP_NAK then handleCapNak c caps
     else { c := c }
 
 def h_410 (c : Client) (l : Line) : HR :=
